@@ -30,4 +30,22 @@ def selectTotal : Bool :=
     select.any (fun r => r.1 == m && r.2.1 == some f && r.2.2.1 == s)))) &&
   [false, true].all (fun s => select.any (fun r => r.1 == "json-enc" && r.2.2.1 == s))
 
+/-- the class that reads an HTTP request body: the decoder class handed to the parser, or what `_select_decoder` returns for the
+    (failsafe, stripped) arguments handed to the file-level reader -/
+def bodyReaderClass (r : String × Bool × Option String × Option Bool × Option Bool) : Option String :=
+  match r.2.2.1 with
+  | some c => some c
+  | none =>
+    match r.2.2.2.1, r.2.2.2.2 with
+    | some f, some s => (select.find? (fun x => x.1 == r.1 && x.2.1 == some f && x.2.2.1 == s)).map (·.2.2.2)
+    | _, _ => none
+
+/-- every request body is read by a STRICT reader (a malformed body is an error, never a partial object), stripped exactly when
+    the request says `level=core`; both formats and both levels are covered -/
+def bodyReadersOk (rows : List (String × Bool × Option String × Option Bool × Option Bool)) : Bool :=
+  rows.all (fun r => match bodyReaderClass r with
+    | some c => flag true r.1 c == some false && flag false r.1 c == some r.2.1
+    | none => false) &&
+  ["json-dec", "xml-dec"].all (fun m => [false, true].all (fun s => rows.any (fun r => r.1 == m && r.2.1 == s)))
+
 end Basyx.Select
